@@ -168,18 +168,22 @@ impl<K: std::fmt::Debug> std::fmt::Debug for HashSet<K> {
 
 // Verification model of lru::LruCache (API subset used by alias.rs; documented lru 0.12 contract): inline slots ordered
 // from least recently used (slot 0) to most recently used (slot n-1).
-pub(crate) struct LruCache<K, V> { cap: usize, slots: [Option<(K, V)>; MODEL_CAP], n: usize }
+// `ghost` = number of further entries that are not materialised in a slot (one-step harnesses over a large cache: they are
+// neither the least recently used entry nor equal to any key looked up); 0 everywhere else.
+pub(crate) struct LruCache<K, V> { cap: usize, slots: [Option<(K, V)>; MODEL_CAP], n: usize, ghost: usize }
 
 impl<K: Eq, V> LruCache<K, V> {
     pub(crate) fn new(cap: std::num::NonZeroUsize) -> Self {
-        assert!(cap.get() <= MODEL_CAP, "gv model: LruCache model capacity exceeded (harness bound)");
-        LruCache { cap: cap.get(), slots: [None, None, None, None], n: 0 }
+        // capacities above MODEL_CAP are accepted; materialising more than MODEL_CAP entries fails the model assertion in push_back
+        LruCache { cap: cap.get(), slots: [None, None, None, None], n: 0, ghost: 0 }
     }
-    pub(crate) fn len(&self) -> usize { self.n }
+    pub(crate) fn gv_set_ghost(&mut self, ghost: usize) { self.ghost = ghost; }
+    pub(crate) fn len(&self) -> usize { self.n + self.ghost }
     pub(crate) fn clear(&mut self) {
         let mut i = 0;
         while i < MODEL_CAP { self.slots[i] = None; i += 1; }
         self.n = 0;
+        self.ghost = 0;
     }
     pub(crate) fn peek<Q: ?Sized + Eq>(&self, k: &Q) -> Option<&V> where K: Borrow<Q> {
         let mut i = 0;
@@ -197,7 +201,7 @@ impl<K: Eq, V> LruCache<K, V> {
         self.n -= 1;
         out
     }
-    fn push_back(&mut self, e: (K, V)) { self.slots[self.n] = Some(e); self.n += 1; }
+    fn push_back(&mut self, e: (K, V)) { assert!(self.n < MODEL_CAP, "gv model: LruCache model capacity exceeded (harness bound)"); self.slots[self.n] = Some(e); self.n += 1; }
     pub(crate) fn promote<Q: ?Sized + Eq>(&mut self, k: &Q) where K: Borrow<Q> {
         let mut i = 0;
         while i < self.n {
@@ -214,7 +218,7 @@ impl<K: Eq, V> LruCache<K, V> {
             if hit { let old = self.take_at(i); self.push_back((k, v)); return old; }
             i += 1;
         }
-        let evicted = if self.n >= self.cap { self.take_at(0) } else { None };
+        let evicted = if self.n + self.ghost >= self.cap { self.take_at(0) } else { None };
         self.push_back((k, v));
         evicted
     }
